@@ -29,4 +29,29 @@ theorem typeIn_of_userGet {allowed : List String} {t : Tag} (h : t.userGet = tru
     (hp : allowed.contains "property" = false) : typeIn allowed t = false := by
   cases t <;> simp_all [Tag.userGet, typeIn, Tag.typeName]
 
+theorem Slot.builtin_bne_absent (t : String) : (Slot.builtin t != Slot.absent) = true := by simp
+theorem Slot.user_bne_absent : (Slot.user != Slot.absent) = true := by decide
+theorem Slot.noneVal_bne_absent : (Slot.noneVal != Slot.absent) = true := by decide
+theorem Slot.other_bne_absent : (Slot.other != Slot.absent) = true := by decide
+
+theorem ClassSlots.get?_mem {d : ClassSlots} {n : String} {s : Slot} (h : d.get? n = some s) :
+    ∃ e ∈ d, e.2 = s := by
+  unfold ClassSlots.get? at h
+  split at h
+  · rename_i e he
+    exact ⟨e, List.mem_of_find?_eq_some he, by simpa using h⟩
+  · simp at h
+
+/-- what the static lookup finds is a stored entry -/
+theorem lookupSpecial_ne_absent {mro : List ClassSlots} {n : String} {s : Slot}
+    (hwf : mroStoresEntries mro = true) (h : lookupSpecial mro n = some s) : s ≠ .absent := by
+  unfold lookupSpecial at h
+  obtain ⟨d, hd, hf⟩ := List.exists_of_findSome?_eq_some h
+  obtain ⟨e, he, hes⟩ := ClassSlots.get?_mem hf
+  unfold mroStoresEntries at hwf
+  have h1 := (List.all_eq_true.mp hwf) d hd
+  have h2 := (List.all_eq_true.mp h1) e he
+  subst hes
+  simpa using h2
+
 end JediModel.ObjModel
